@@ -308,7 +308,7 @@ theorem takes_moveTo (leaf : String → Bool) (cfg : Cfg) (x y z sp : Option Rat
   exact moveTo_disc leaf cfg x y z sp cs hcs
 
 /-- the wall loop keeps the shutter open across its turns: its body calls a leaf program, bumps `$ZCURR` and moves in z only -/
-theorem takes_wallLoop (leaf : String → Bool) (cfg : Cfg) (c : Col) (i : Nat) (hl : leaf (progKey (wallName i)) = true) :
+theorem takes_wallLoop (leaf : String → Bool) (cfg : Cfg) (c : Col) (i : Nat) (hl : leaf (progKey (c.wall i)) = true) :
     Takes leaf true true (wallLoop cfg c i) := by
   intro cs hcs herr
   unfold wallLoop at herr ⊢
@@ -316,7 +316,7 @@ theorem takes_wallLoop (leaf : String → Bool) (cfg : Cfg) (c : Col) (i : Nat) 
   by_cases hn : c.nRep ≤ 0
   · simp only [hn, if_true]; exact ⟨rfl, hcs⟩
   · simp only [hn, if_false] at herr ⊢
-    have hb : Takes leaf true true (fun cs => (farcallOp cfg (wallName i) cs).andThen
+    have hb : Takes leaf true true (fun cs => (farcallOp cfg (c.wall i) cs).andThen
         (instrR [.incVar "zcurr" q, .g1 { zvar := some "ZCURR" }])) :=
       Takes.andThen (takes_farcall leaf cfg true _ hl)
         (takes_instr leaf true _ (by intro j hj; simp at hj; rcases hj with rfl | rfl <;> simp [discAtom, G1W.xy]))
@@ -330,7 +330,7 @@ theorem takes_wallLoop (leaf : String → Bool) (cfg : Cfg) (c : Col) (i : Nat) 
 compiles without error it moves in x / y only with the shutter closed, opens it exactly around the wall loop and around the
 floor call — both calls of leaf programs —, and ends closed, for every configuration, column, level and trench -/
 theorem trenchBlock_disciplined (leaf : String → Bool) (cfg : Cfg) (c : Col) (nbox i : Nat) (xy : Rat × Rat)
-    (hw : leaf (progKey (wallName i)) = true) (hf : leaf (progKey (floorName i)) = true) :
+    (hw : leaf (progKey (c.wall i)) = true) (hf : leaf (progKey (c.floor i)) = true) :
     Takes leaf false false (trenchBlock cfg c nbox i xy) := by
   unfold trenchBlock
   exact
@@ -357,7 +357,7 @@ theorem trenchBlock_disciplined (leaf : String → Bool) (cfg : Cfg) (c : Col) (
 
 /-- every block of a column, one after the other -/
 theorem blocksFrom_disciplined (leaf : String → Bool) (cfg : Cfg) (c : Col)
-    (hw : ∀ i, leaf (progKey (wallName i)) = true) (hf : ∀ i, leaf (progKey (floorName i)) = true)
+    (hw : ∀ i, leaf (progKey (c.wall i)) = true) (hf : ∀ i, leaf (progKey (c.floor i)) = true)
     (l : List (Nat × Nat × (Rat × Rat))) : Takes leaf false false (blocksFrom cfg c l) := by
   induction l with
   | nil => intro cs hcs _; exact ⟨rfl, hcs⟩
@@ -365,16 +365,42 @@ theorem blocksFrom_disciplined (leaf : String → Bool) (cfg : Cfg) (c : Col)
     obtain ⟨nbox, i, xy⟩ := b
     exact Takes.andThen (trenchBlock_disciplined leaf cfg c nbox i xy (hw i) (hf i)) ih
 
+/-- a bed block of a U-trench call file: positioned in x / y with the shutter closed, open only across the call of the bed program -/
+theorem bedBlock_disciplined (leaf : String → Bool) (cfg : Cfg) (c : Col) (k : Nat) (xy : Rat × Rat)
+    (hb : leaf (progKey (bedName k)) = true) : Takes leaf false false (bedBlock cfg c k xy) := by
+  unfold bedBlock
+  exact
+    Takes.andThen (Takes.andThen (Takes.andThen (Takes.andThen (Takes.andThen (Takes.andThen (Takes.andThen (Takes.andThen
+    (Takes.andThen (Takes.andThen
+      (takes_comment leaf false true)
+      (takes_shutter leaf cfg false false))
+      (takes_load leaf false _ 2))
+      (takes_instr leaf false [.msg] (by intro j hj; simp at hj; subst hj; rfl)))
+      (takes_uMove leaf cfg false _ true))
+      (takes_moveTo leaf cfg _ _ _ _))
+      (takes_shutter leaf cfg false true))
+      (takes_farcall leaf cfg true _ hb))
+      (takes_shutter leaf cfg true false))
+      (takes_uMove leaf cfg false _ false))
+      (takes_remove leaf false _ 2)
+
+theorem bedsFrom_disciplined (leaf : String → Bool) (cfg : Cfg) (c : Col) (hb : ∀ k, leaf (progKey (bedName k)) = true)
+    (l : List (Nat × (Rat × Rat))) : Takes leaf false false (bedsFrom cfg c l) := by
+  induction l with
+  | nil => intro cs hcs _; exact ⟨rfl, hcs⟩
+  | cons b l ih => obtain ⟨k, xy⟩ := b; exact Takes.andThen (bedBlock_disciplined leaf cfg c k xy (hb k)) ih
+
 /-- **the body of the call file is disciplined** for every column (any number of levels and trenches, with or without `u`),
 every configuration and every pause setting -/
 theorem farcallBody_disciplined (leaf : String → Bool) (cfg : Cfg) (c : Col)
-    (hw : ∀ i, leaf (progKey (wallName i)) = true) (hf : ∀ i, leaf (progKey (floorName i)) = true) :
+    (hw : ∀ i, leaf (progKey (c.wall i)) = true) (hf : ∀ i, leaf (progKey (c.floor i)) = true)
+    (hb : ∀ k, leaf (progKey (bedName k)) = true) :
     Takes leaf false false (farcallBody cfg c) := by
   unfold farcallBody
   have hd : Takes leaf false false (fun cs : CS =>
       ({ pre := emit [.dvar ["zcurr"], .blank], cs := { cs with dvars := cs.dvars ++ ["zcurr"] } } : Res)) := by
     intro cs hcs _; exact ⟨rfl, hcs⟩
-  exact Takes.andThen (Takes.andThen hd (blocksFrom_disciplined leaf cfg c hw hf _))
+  exact Takes.andThen (Takes.andThen (Takes.andThen hd (blocksFrom_disciplined leaf cfg c hw hf _)) (bedsFrom_disciplined leaf cfg c hb _))
     (takes_instr leaf false [.msg] (by intro j hj; simp at hj; subst hj; rfl))
 
 
@@ -419,7 +445,7 @@ theorem noPre_wallLoop (cfg : Cfg) (c : Col) (i : Nat) : NoPre (wallLoop cfg c i
   by_cases hn : c.nRep ≤ 0
   · simp only [hn, if_true]
   · simp only [hn, if_false]
-    have := NoPre.andThen (noPre_farcall cfg (wallName i)) (noPre_instr [.incVar "zcurr" q, .g1 { zvar := some "ZCURR" }]) cs
+    have := NoPre.andThen (noPre_farcall cfg (c.wall i)) (noPre_instr [.incVar "zcurr" q, .g1 { zvar := some "ZCURR" }]) cs
     dsimp only at this
     exact this
 
@@ -439,14 +465,39 @@ theorem noPre_blocksFrom (cfg : Cfg) (c : Col) (l : List (Nat × Nat × (Rat × 
   | nil => exact fun _ => rfl
   | cons b l ih => obtain ⟨nbox, i, xy⟩ := b; exact NoPre.andThen (noPre_trenchBlock cfg c nbox i xy) ih
 
+theorem noPre_bedBlock (cfg : Cfg) (c : Col) (k : Nat) (xy : Rat × Rat) : NoPre (bedBlock cfg c k xy) := by
+  unfold bedBlock
+  exact
+    NoPre.andThen (NoPre.andThen (NoPre.andThen (NoPre.andThen (NoPre.andThen (NoPre.andThen (NoPre.andThen (NoPre.andThen
+    (NoPre.andThen (NoPre.andThen
+      (noPre_comment true) (noPre_shutter cfg false)) (noPre_load _ 2)) (noPre_instr _)) (noPre_uMove cfg _ true))
+      (noPre_moveTo cfg _ _ _ _)) (noPre_shutter cfg true)) (noPre_farcall cfg _)) (noPre_shutter cfg false)) (noPre_uMove cfg _ false))
+      (noPre_remove _ 2)
+
+theorem noPre_bedsFrom (cfg : Cfg) (c : Col) (l : List (Nat × (Rat × Rat))) : NoPre (bedsFrom cfg c l) := by
+  induction l with
+  | nil => exact fun _ => rfl
+  | cons b l ih => obtain ⟨k, xy⟩ := b; exact NoPre.andThen (noPre_bedBlock cfg c k xy) ih
+
 /-- the only hoisted lines of the call file are the declaration of `$ZCURR` -/
 theorem farcallBody_pre (cfg : Cfg) (c : Col) (cs : CS) : (farcallBody cfg c cs).pre = emit [.dvar ["zcurr"], .blank] := by
   unfold farcallBody
-  simp only [Res.andThen]
-  have hb := noPre_blocksFrom cfg c (blockList c) { cs with dvars := cs.dvars ++ ["zcurr"] }
+  have hrest : NoPre (fun cs' => ((blocksFrom cfg c (blockList c) cs').andThen (bedsFrom cfg c (bedList c))).andThen (instrR [.msg])) :=
+    NoPre.andThen (NoPre.andThen (noPre_blocksFrom cfg c _) (noPre_bedsFrom cfg c _)) (noPre_instr _)
+  have hb := hrest { cs with dvars := cs.dvars ++ ["zcurr"] }
+  simp only [Res.andThen] at hb ⊢
   cases he : (blocksFrom cfg c (blockList c) { cs with dvars := cs.dvars ++ ["zcurr"] }).err with
-  | some e => simp [he, hb]
-  | none => simp [he, hb, instrR, Res.ofOut]
+  | some e =>
+    have h1 := noPre_blocksFrom cfg c (blockList c) { cs with dvars := cs.dvars ++ ["zcurr"] }
+    simp [he, h1]
+  | none =>
+    rw [he] at hb
+    simp only at hb ⊢
+    have h1 := noPre_blocksFrom cfg c (blockList c) { cs with dvars := cs.dvars ++ ["zcurr"] }
+    have h2 := noPre_bedsFrom cfg c (bedList c) (blocksFrom cfg c (blockList c) { cs with dvars := cs.dvars ++ ["zcurr"] }).cs
+    cases he2 : (bedsFrom cfg c (bedList c) (blocksFrom cfg c (blockList c) { cs with dvars := cs.dvars ++ ["zcurr"] }).cs).err with
+    | some e => simp [he2, h1, h2]
+    | none => simp [he2, h1, h2, instrR, Res.ofOut]
 
 /-- **the whole call file is a disciplined calling file** (`Ctl.disciplined`, the hypothesis of `tree_discipline` /
 `run_discipline` for every non-leaf file of an exported tree): for every configuration without a session-wide rotation whose
@@ -454,7 +505,8 @@ header is disciplined from a closed shutter, every column whose wall and floor p
 body compiles without error — header, `DVAR $ZCURR`, all (level, trench) blocks, `MSGCLEAR`, optional homing move -/
 theorem farcallFile_disciplined (leaf : String → Bool) (cfg : Cfg) (c : Col) (hrot : cfg.aeroAngle = 0)
     (hh : discStmts leaf false (emit cfg.header) = some false)
-    (hw : ∀ i, leaf (progKey (wallName i)) = true) (hf : ∀ i, leaf (progKey (floorName i)) = true)
+    (hw : ∀ i, leaf (progKey (c.wall i)) = true) (hf : ∀ i, leaf (progKey (c.floor i)) = true)
+    (hb : ∀ k, leaf (progKey (bedName k)) = true)
     (hok : (farcallBody cfg c (seq (seq (emit (cfg.header ++ [.blank]), ({} : CS)) (dwell (some 1))) fun cs => (emit [.blank], cs)).2).err = none) :
     disciplined leaf (farcallFile cfg c).1 = true := by
   set hd : Out := seq (seq (emit (cfg.header ++ [.blank]), ({} : CS)) (dwell (some 1))) fun cs => (emit [.blank], cs) with hhd
@@ -472,7 +524,7 @@ theorem farcallFile_disciplined (leaf : String → Bool) (cfg : Cfg) (c : Col) (
     rw [discStmts_emit_quiet leaf false [.blank] (by intro i hi; simp at hi; subst hi; rfl)]
     simp only [Option.bind_some, d1]
     exact discStmts_emit_quiet leaf false [.blank] (by intro i hi; simp at hi; subst hi; rfl)
-  obtain ⟨b1, b2⟩ := farcallBody_disciplined leaf cfg c hw hf hd.2 hd2 hok
+  obtain ⟨b1, b2⟩ := farcallBody_disciplined leaf cfg c hw hf hb hd.2 hd2 hok
   have hpre : discStmts leaf false (farcallBody cfg c hd.2).pre = some false := by
     have : (farcallBody cfg c hd.2).pre = emit [.dvar ["zcurr"], .blank] := farcallBody_pre cfg c hd.2
     rw [this]
@@ -491,6 +543,242 @@ theorem farcallFile_disciplined (leaf : String → Bool) (cfg : Cfg) (c : Col) (
   rfl
 
 
+/-! ### every loop of the call file is a wall loop of the depth schedule -/
+
+/-- a statement of a call file: a plain instruction, or the wall loop of some trench with `n` turns and increment `q` -/
+def WallRep (c : Col) (n : Nat) (q : Rat) (st : Stmt) : Prop :=
+  (∃ i, st = .atom i) ∨ ∃ j, st = .rep n (wallLoopBody (c.wall j) q) ∨ ∃ t, st = .rep n (wallLoopBodyD t (c.wall j) q)
+
+def Loops (c : Col) (n : Nat) (q : Rat) (f : CS → Res) : Prop := ∀ cs, (f cs).err = none → ∀ st ∈ (f cs).out, WallRep c n q st
+
+theorem Loops.andThen {c : Col} {n : Nat} {q : Rat} {f g : CS → Res} (hf : Loops c n q f) (hg : Loops c n q g) :
+    Loops c n q (fun cs => (f cs).andThen g) := by
+  intro cs herr st hst
+  simp only [Res.andThen] at herr hst
+  cases he : (f cs).err with
+  | some e => rw [he] at herr; simp only at herr; rw [he] at herr; cases herr
+  | none =>
+    rw [he] at herr hst
+    simp only at herr hst
+    rcases List.mem_append.mp hst with h | h
+    · exact hf cs he st h
+    · exact hg (f cs).cs herr st h
+
+/-- steps that emit plain instructions only -/
+def Plain (f : CS → Res) : Prop := ∀ cs, ∀ st ∈ (f cs).out, ∃ i, st = Stmt.atom i
+
+theorem Plain.loops {c : Col} {n : Nat} {q : Rat} {f : CS → Res} (h : Plain f) : Loops c n q f :=
+  fun cs _ st hst => Or.inl (h cs st hst)
+
+theorem plain_emit (is : List Instr) : ∀ st ∈ emit is, ∃ i, st = Stmt.atom i := by
+  intro st h; simp only [emit, List.mem_map] at h; obtain ⟨i, _, rfl⟩ := h; exact ⟨i, rfl⟩
+
+theorem Plain.andThen {f g : CS → Res} (hf : Plain f) (hg : Plain g) : Plain (fun cs => (f cs).andThen g) := by
+  intro cs st hst
+  simp only [Res.andThen] at hst
+  cases he : (f cs).err with
+  | some e => rw [he] at hst; exact hf cs st hst
+  | none =>
+    rw [he] at hst
+    rcases List.mem_append.mp hst with h | h
+    · exact hf cs st h
+    · exact hg _ st h
+
+theorem plain_instr (is : List Instr) : Plain (instrR is) := fun _ => plain_emit is
+theorem plain_comment (b : Bool) : Plain (fun cs => Res.ofOut (comment b cs)) := by
+  intro cs; unfold comment; cases b <;> exact plain_emit _
+theorem plain_dwell (p : Option Rat) : Plain (dwellR p) := by
+  intro cs st h
+  unfold dwellR dwell at h
+  cases p with
+  | none => simp [Res.ofOut] at h
+  | some t => by_cases h0 : t = 0
+              · simp [h0, Res.ofOut] at h
+              · simp only [h0, if_false, Res.ofOut] at h; exact plain_emit _ st h
+theorem plain_shutter (cfg : Cfg) (on : Bool) : Plain (shutterR cfg on) := by
+  intro cs st h
+  unfold shutterR shutter at h
+  split at h
+  · exact plain_emit _ st h
+  · split at h
+    · exact plain_emit _ st h
+    · simp [Res.ofOut] at h
+theorem plain_load (p : String) (t : Nat) : Plain (loadOp p t) := by
+  intro cs st h; unfold loadOp at h; split at h
+  · simp at h
+  · exact plain_emit _ st h
+theorem plain_remove (p : String) (t : Nat) : Plain (removeOp p t) := by
+  intro cs st h; unfold removeOp at h; split at h
+  · simp at h
+  · split at h
+    · simp at h
+    · exact plain_emit _ st h
+theorem plain_farcall (cfg : Cfg) (p : String) : Plain (farcallOp cfg p) := by
+  intro cs st h; unfold farcallOp at h; split at h
+  · simp at h
+  · split at h
+    · simp at h
+    · simp only [Res.ofOut, seq] at h
+      rcases List.mem_append.mp h with h | h
+      · exact plain_dwell cfg.shortPause cs st h
+      · exact plain_emit _ st h
+theorem plain_moveTo (cfg : Cfg) (x y z sp : Option Rat) : Plain (moveToR cfg x y z sp) := by
+  intro cs st h
+  unfold moveToR moveTo closeIfOpen at h
+  have hs := plain_shutter cfg false cs
+  simp only [shutterR, Res.ofOut] at hs
+  cases hf : formatArgs cfg.digits x y z (some (sp.getD cfg.speedPos)) with
+  | error e =>
+    rw [hf] at h; simp only at h
+    split at h
+    · exact hs st h
+    · simp at h
+  | ok w =>
+    rw [hf] at h; simp only [seq] at h
+    rcases List.mem_append.mp h with h | h
+    · rcases List.mem_append.mp h with h | h
+      · split at h
+        · exact hs st h
+        · simp at h
+      · exact plain_emit _ st h
+    · rcases List.mem_append.mp h with h | h
+      · exact plain_dwell cfg.longPause _ st h
+      · exact plain_emit _ st h
+theorem plain_uMove (cfg : Cfg) (u : Option Rat) (pause : Bool) : Plain (uMove cfg u pause) := by
+  unfold uMove
+  cases u with
+  | none => intro cs st h; simp at h
+  | some v =>
+    cases pause
+    · simpa using plain_instr [g1U v]
+    · simpa using Plain.andThen (plain_instr [g1U v]) (plain_dwell cfg.longPause)
+
+
+/-- the only loop a block emits: `REPEAT n_repeat { [DWELL] FARCALL wall_i; $ZCURR = $ZCURR + q; G1 Z$ZCURR }`, `q` the printed
+`deltaz / neff` — exactly the shape `wall_loop_depths` is about -/
+theorem loops_wallLoop (cfg : Cfg) (c : Col) (i : Nat) :
+    Loops c c.nRep.toNat (fmt 6 (c.deltaz / cfg.neff)) (wallLoop cfg c i) := by
+  intro cs herr st hst
+  unfold wallLoop at herr hst
+  generalize fmt 6 (c.deltaz / cfg.neff) = q at herr hst ⊢
+  by_cases hn : c.nRep ≤ 0
+  · simp [hn] at herr
+  · simp only [hn, if_false] at herr hst
+    simp only [List.mem_cons, List.mem_nil_iff, or_false] at hst
+    rcases hst with rfl | rfl
+    · right
+      refine ⟨i, ?_⟩
+      simp only [Res.andThen] at herr ⊢
+      cases he : (farcallOp cfg (c.wall i) cs).err with
+      | some e => rw [he] at herr; simp only at herr; rw [he] at herr; cases herr
+      | none =>
+        simp only [instrR, Res.ofOut, emit, List.map_cons, List.map_nil]
+        unfold farcallOp at he ⊢
+        split at he
+        · simp at he
+        · split at he
+          · simp at he
+          · rename_i h1 h2
+            simp only [h1, h2, if_false, Res.ofOut, seq, dwell]
+            cases cfg.shortPause with
+            | none => left; simp [emit, wallLoopBody]
+            | some t =>
+              by_cases h0 : t = 0
+              · left; simp [h0, emit, wallLoopBody]
+              · right; exact ⟨rabs t, by simp [h0, emit, wallLoopBodyD, wallLoopBody]⟩
+    · exact Or.inl ⟨_, rfl⟩
+
+theorem loops_trenchBlock (cfg : Cfg) (c : Col) (nbox i : Nat) (xy : Rat × Rat) :
+    Loops c c.nRep.toNat (fmt 6 (c.deltaz / cfg.neff)) (trenchBlock cfg c nbox i xy) := by
+  unfold trenchBlock
+  exact
+    Loops.andThen (Loops.andThen (Loops.andThen (Loops.andThen (Loops.andThen (Loops.andThen (Loops.andThen (Loops.andThen
+    (Loops.andThen (Loops.andThen (Loops.andThen (Loops.andThen (Loops.andThen (Loops.andThen (Loops.andThen (Loops.andThen
+      (plain_comment true).loops (plain_load _ 2).loops) (plain_instr _).loops) (plain_shutter cfg false).loops)
+      (plain_uMove cfg _ true).loops) (plain_moveTo cfg _ _ _ _).loops) (plain_instr _).loops) (plain_shutter cfg true).loops)
+      (loops_wallLoop cfg c i)) (plain_remove _ 2).loops) (plain_shutter cfg false).loops) (plain_load _ 2).loops)
+      (plain_instr _).loops) (plain_uMove cfg _ true).loops) (plain_shutter cfg true).loops) (plain_farcall cfg _).loops)
+      (Loops.andThen (Loops.andThen (plain_shutter cfg false).loops (plain_uMove cfg _ false).loops) (plain_remove _ 2).loops)
+
+theorem loops_blocksFrom (cfg : Cfg) (c : Col) (l : List (Nat × Nat × (Rat × Rat))) :
+    Loops c c.nRep.toNat (fmt 6 (c.deltaz / cfg.neff)) (blocksFrom cfg c l) := by
+  induction l with
+  | nil => intro cs _ st h; simp [blocksFrom] at h
+  | cons b l ih => obtain ⟨nbox, i, xy⟩ := b; exact Loops.andThen (loops_trenchBlock cfg c nbox i xy) ih
+
+theorem plain_bedBlock (cfg : Cfg) (c : Col) (k : Nat) (xy : Rat × Rat) : Plain (bedBlock cfg c k xy) := by
+  unfold bedBlock
+  exact
+    Plain.andThen (Plain.andThen (Plain.andThen (Plain.andThen (Plain.andThen (Plain.andThen (Plain.andThen (Plain.andThen
+    (Plain.andThen (Plain.andThen
+      (plain_comment true) (plain_shutter cfg false)) (plain_load _ 2)) (plain_instr _)) (plain_uMove cfg _ true))
+      (plain_moveTo cfg _ _ _ _)) (plain_shutter cfg true)) (plain_farcall cfg _)) (plain_shutter cfg false)) (plain_uMove cfg _ false))
+      (plain_remove _ 2)
+
+theorem plain_bedsFrom (cfg : Cfg) (c : Col) (l : List (Nat × (Rat × Rat))) : Plain (bedsFrom cfg c l) := by
+  induction l with
+  | nil => intro cs st h; simp [bedsFrom] at h
+  | cons b l ih => obtain ⟨k, xy⟩ := b; exact Plain.andThen (plain_bedBlock cfg c k xy) ih
+
+/-- **every loop of the call file is a wall loop of the schedule**: whenever the body compiles without error, each of its
+statements is a plain instruction or `REPEAT n_repeat { [DWELL] FARCALL trench<j>_wall; $ZCURR += fmt₆(deltaz / neff); G1 Z$ZCURR }`
+for some trench `j` — the loop shape `wall_loop_depths` proves to realise the depth schedule; no other loop, no `FOR`, for every
+column and configuration -/
+theorem farcallBody_loops (cfg : Cfg) (c : Col) : Loops c c.nRep.toNat (fmt 6 (c.deltaz / cfg.neff)) (farcallBody cfg c) := by
+  unfold farcallBody
+  have hd : Loops c c.nRep.toNat (fmt 6 (c.deltaz / cfg.neff)) (fun cs : CS =>
+      ({ pre := emit [.dvar ["zcurr"], .blank], cs := { cs with dvars := cs.dvars ++ ["zcurr"] } } : Res)) := by
+    intro cs _ st h; simp at h
+  exact Loops.andThen (Loops.andThen (Loops.andThen hd (loops_blocksFrom cfg c _)) (plain_bedsFrom cfg c _).loops) (plain_instr [.msg]).loops
+
+
+/-- the recogniser the check runs on every loop of every real call file accepts exactly these bodies -/
+theorem matchWallLoop_body (p : String) (q : Rat) : matchWallLoop (wallLoopBody p q) = some (none, p, q) := by
+  simp [matchWallLoop, wallLoopBody, flattenStmts, flattenStmt]
+
+theorem matchWallLoop_bodyD (t : Rat) (p : String) (q : Rat) : matchWallLoop (wallLoopBodyD t p q) = some (some t, p, q) := by
+  simp [matchWallLoop, wallLoopBodyD, wallLoopBody, flattenStmts, flattenStmt]
+
+/-! ### the leaf files (`export_array2d`) -/
+
+theorem leafLine_xy (cfg : Cfg) (xy : Rat × Rat) (f : Option Rat) (g9 : Bool) (i : Instr) (h : leafLine cfg xy f g9 = .ok i) :
+    ∃ w : G1W, i = .g1 w ∧ w.z = none ∧ w.zvar = none ∧ w.u = none ∧ w.x.isSome = true ∧ w.y.isSome = true := by
+  unfold leafLine formatArgs at h
+  cases f with
+  | none => simp only [Except.map] at h; injection h with h; exact ⟨_, h.symm, rfl, rfl, rfl, rfl, rfl⟩
+  | some fv =>
+    simp only at h
+    split at h
+    · simp [Except.map] at h
+    · simp only [Except.map] at h; injection h with h; exact ⟨_, h.symm, rfl, rfl, rfl, rfl, rfl⟩
+
+/-- **what `export_array2d` writes is an x / y-only leaf program**: every line is a `G1` with an X and a Y word and no Z, `$`-variable
+or U word — for every point list, speed, flag list and configuration; so the wall, floor and bed files are leaves of the exported
+tree in the sense of `tree_discipline` (`isLeafBody`) and of `wall_loop_depths` (`isLeafXY`: a wall pass never changes the depth) -/
+theorem leafFile_isLeafXY (cfg : Cfg) (pts : List (Rat × Rat)) (speed : Rat) (decel : List Bool) (is : List Instr)
+    (h : leafFile cfg pts speed decel = .ok is) : isLeafXY (emit is) = true ∧ isLeafBody (emit is) = true ∧ is.length = pts.length := by
+  unfold leafFile at h
+  generalize 0 = k at h
+  induction pts generalizing k is with
+  | nil => simp only [leafLines] at h; injection h with h; subst h; simp [isLeafXY, isLeafBody, emit]
+  | cons xy rest ih =>
+    simp only [leafLines] at h
+    cases hl : leafLine cfg xy (if k = 0 then some speed else none) (decel.getD k false) with
+    | error e => rw [hl] at h; cases h
+    | ok i =>
+      rw [hl] at h
+      cases hr : leafLines cfg speed decel (k + 1) rest with
+      | error e => rw [hr] at h; cases h
+      | ok is' =>
+        rw [hr] at h
+        simp only at h
+        injection h with h; subst h
+        obtain ⟨w, rfl, hz, hzv, hu, _, _⟩ := leafLine_xy cfg xy _ _ i hl
+        obtain ⟨i1, i2, i3⟩ := ih is' (k + 1) hr
+        simp only [isLeafXY, isLeafBody, emit, List.map_cons, List.all_cons, hz, hzv, hu, Option.isNone_none, Bool.and_self,
+          Bool.true_and, List.length_cons] at i1 i2 ⊢
+        exact ⟨i1, i2, by omega⟩
+
 /-- the shipped headers are disciplined from a closed shutter, whatever the tree's leaves are (regenerated data, every run) -/
 theorem shipped_headers_disciplined : ∀ h ∈ Femto.Gen.headers, ∀ b : Bool,
     discStmts (fun _ => b) false (emit h.2.2) = some false := by decide
@@ -500,7 +788,9 @@ into a disciplined file (evaluated by the kernel on the model) -/
 example : (let cfg : Cfg := { header := Femto.Gen.header_uwe, flipX := true, neff := 3/2, shortPause := some (1/20) }
     let c : Col := { index := 0, nboxz := 2, nRep := 5, baseFolder := "lab", inits := [(1, 2), (1, 3)], hBox := 3/40, zOff := -1/50,
                      deltaz := 3/2000, speedClosed := 5, u := some (28, 59/2) }
-    (farcallBody cfg c {}).err.isNone && disciplined (fun _ => true) (farcallFile cfg c).1) = true := by decide +kernel
+    let cu : Col := { c with upper := true, beds := [(1, 2), (1, 5/2)] }
+    (farcallBody cfg c {}).err.isNone && disciplined (fun _ => true) (farcallFile cfg c).1 &&
+      (farcallBody cfg cu {}).err.isNone && disciplined (fun _ => true) (farcallFile cfg cu).1) = true := by decide +kernel
 
 /-- non-vacuity: the default column (h_box 0.075, z_off -0.020, deltaz 0.0015) needs 64 passes per box -/
 example : nRepeat (75/1000) (-20/1000) (15/10000) = 64 := by decide +kernel
